@@ -64,6 +64,17 @@ def setup(ctx):
     c.executemany('insert into t values (?, ?)', [(1, 'x'), (2, 'y'), (3, 'z')])
     c.commit()
     c.close()
+    _files['xml'] = os.path.join(d, 'a.xml')
+    with open(_files['xml'], 'w') as f:
+        f.write('<table><tr><td>foo</td><td>bar</td></tr><tr><td>a</td><td>1</td></tr><tr><td>b</td><td>2</td></tr><tr><td>c</td><td>3</td></tr></table>')
+    _files['csvbz2'] = os.path.join(d, 'a.csv.bz2')
+    petl.tocsv(N, _files['csvbz2'])
+    _files['picklegz'] = os.path.join(d, 'a.p.gz')
+    petl.topickle(N, _files['picklegz'])
+    import zipfile
+    _files['zip'] = os.path.join(d, 'a.zip')
+    with zipfile.ZipFile(_files['zip'], 'w') as z:
+        z.write(_files['csv'], 'a.csv')
     from petl.io.sources import MemorySource
     for kind in ('csv', 'pickle', 'text', 'json', 'jsonl'):
         with open(_files[kind], 'rb') as f:
@@ -100,6 +111,14 @@ EXTRA = {
     'x:fromjson-lines': lambda s: petl.fromjson(_files['jsonl'], lines=True),
     'x:fromtext': lambda s: petl.fromtext(_files['text']),
     'x:fromdb': lambda s: petl.fromdb(_files['db'], 'select * from t'),
+    'x:fromxml': lambda s: petl.fromxml(_files['xml'], 'tr', 'td'),
+    'x:fromcsv-bz2': lambda s: petl.fromcsv(_files['csvbz2']),
+    'x:frompickle-gz': lambda s: petl.frompickle(_files['picklegz']),
+    'x:fromcsv-zip': lambda s: petl.fromcsv(petl.ZipSource(_files['zip'], 'a.csv')),
+    'x:fromcsv-header': lambda s: petl.fromcsv(_files['csv'], header=['a', 'b', 'c']),
+    'x:fromtext-strip': lambda s: petl.fromtext(_files['text'], header=['l'], strip=False),
+    'x:fromdb-connection': lambda s: petl.fromdb(sqlite3.connect(_files['db']), 'select * from t'),
+    'x:fromdb-mkcursor': lambda s: (lambda c: petl.fromdb(lambda: c.cursor(), 'select * from t'))(sqlite3.connect(_files['db'])),
     'x:fromcsv-memory': lambda s: petl.fromcsv(_files['mem:csv']),
     'x:frompickle-memory': lambda s: petl.frompickle(_files['mem:pickle']),
     'x:frompickle-memory2': lambda s: petl.frompickle(_files['mem:pickle2']),
